@@ -82,6 +82,29 @@ def step (line : String) : String :=
     | "set_root" => let r := setRoot rw sc; answer (unitRes r.1) (r.2.map showRContact)
     | "unset_root" => let r := unsetRoot sc; answer (unitRes r.1) (r.2.map showRContact)
     | _ => "bad-op"
+  | ["e2e", isImage, op, scopes, own, locs, cache, listings, valids, state] =>
+    -- the whole stack: `listings` are the raw directory listings of the mirrors, mapped by `transferShow`
+    match own.splitOn "," with
+    | [gw, host, swarm, shared] =>
+      let e : Env := { gateway := gw, host := host, swarmPool := swarm, sharedPool := shared, netGateway := [], netHost := [] }
+      let mt := (kv listings).map fun (k, v) => (k, transferShow (isImage == "1") ((v.splitOn ",").filter (· != "")))
+      let vt := kv valids
+      let w : World := { cache := words cache,
+                         mirror := fun s => (mt.lookup s.str).getD [],
+                         valid := fun s => (vt.lookup s.str) == some "1" }
+      let sc := words scopes
+      let ls := words locs
+      match op with
+      | "show" =>
+        let r := showRaw e w sc ls
+        answer (match r.1 with
+                | .ok names => "ok:" ++ ",".intercalate (sortStr (dedupStr names))
+                | .error er => showErr er) (r.2.map showContact)
+      | "get" => let r := getRaw e w sc state ls; answer (unitRes r.1) (r.2.map showContact)
+      | "set" => let r := setRaw e w sc state ls; answer (unitRes r.1) (r.2.map showContact)
+      | "unset" => let r := unsetRaw e sc ls; answer (unitRes r.1) (r.2.map showContact)
+      | _ => "bad-op"
+    | _ => "bad-op"
   | ["chain", images, isVm, chain, differing] =>
     let diff := words differing
     let r := compareChain (words images) (isVm == "1") (fun f => !diff.contains f) (words chain)
